@@ -657,6 +657,21 @@ def tri_report(rtype, f0, f1, f2, f3, seq=7, mode=0x12):
     return [mode, rtype, f0, f1, f2, f3, 0, 0, seq] + [0] * 55
 
 
+def reuse_step(c, op):
+    """one step of the history of a re-used command object (suite 2, replay)"""
+    if op[0] == "views":
+        str(c.frame), c.frame.pack, c.frame.as_byte_sequence, c.frame.as_integer
+    elif op[0] == "pack_len":
+        try:
+            c.frame.pack_len(4)
+        except Exception:   # noqa
+            pass
+    elif op[0] == "setslice":
+        c.frame[op[1]:op[2]] = op[3]
+    elif op[0] == "setbit":
+        c.frame[op[1]] = bool(op[2])
+
+
 def spec_vs_impl(corr, drv, desc, spec, impl):
     """oracle: the real packet against the gateway format"""
     if spec == "refuse":
@@ -716,14 +731,15 @@ def correspond(ctx, corr):
 
     # ---- 2. every width 1..64 x twice (+ flags), sampled data; 24-bit sampled
     lines, impls, descs = [], [], []
-    def add(drv, c, seq):
+    def add(drv, c, seq, hist=None):
         t, q, s, d = env.flags(c)
         f = c.frame
         line = "enc %s %d %d %d %d %d %d %d" % (drv, len(f), f.as_integer, t, q, s, d, seq)
         lines.append(line)
         lines.append("spec " + line)
         impls.append(env.enc(drv, c, seq))
-        descs.append((drv, line))
+        descs.append((drv, line if hist is None else
+                      {"line": line, "driver": drv, "history of this command object": hist + [["enc", seq]]}))
     for drv in DRIVERS:
         for w in range(1, 65):
             for twice in (False, True):
@@ -735,6 +751,31 @@ def correspond(ctx, corr):
                               kind=rng.choice(["plain", "std", "dapc"])), rng.randrange(1, 256))
         for seq in (0, 1, 254, 255):
             add(drv, env.stub(16, 0xFF08, False), seq)
+    # ONE command object sent, edited, sent again (a frame is mutable and `Command.frame` hands out the object
+    # itself: an application that re-uses a command with another level / scene number, or merely logged it before):
+    # every transmission carries the bits the frame holds NOW  (strengthening after seeded round 6)
+    for drv in DRIVERS:
+        for _ in range(60 if ctx.thorough else 12):
+            w = rng.choice([16, 16, 24])
+            spec_ = [w, rng.randrange(1 << w), rng.random() < 0.3, rng.random() < 0.3, rng.choice(["plain", "std"])]
+            c = env.stub(spec_[0], spec_[1], spec_[2], query=spec_[3], kind=spec_[4])
+            hist = [["new"] + spec_]
+            for step_ in range(rng.randrange(2, 6)):
+                k = rng.randrange(5)
+                if k <= 1:
+                    hist.append(["views"] if k == 0 else ["pack_len"])
+                    reuse_step(c, hist[-1])
+                seq = rng.randrange(1, 256)
+                add(drv, c, seq, hist)
+                hist.append(["enc", seq])
+                lo = rng.randrange(w)
+                hi = rng.randrange(lo, min(w, lo + 9))
+                if rng.random() < 0.7:
+                    hist.append(["setslice", hi, lo, rng.randrange(1 << (hi - lo + 1))])
+                else:
+                    hist.append(["setbit", lo, rng.random() < 0.5])
+                reuse_step(c, hist[-1])
+            add(drv, c, rng.randrange(1, 256), hist)
     # real decoded commands (natural flags) through LUBA and Tridonic: the whole 16-bit space
     step = 1
     for d in range(0, 65536, step):
@@ -743,11 +784,12 @@ def correspond(ctx, corr):
         if d % 8 == 0 or ctx.thorough:
             add("tridonic", c, 1 + d % 255)
     ans = model_batch(lines)
-    for i, (drv, line) in enumerate(descs):
+    for i, (drv, desc) in enumerate(descs):
         m, s, impl = ans[2 * i], ans[2 * i + 1], impls[i]
+        line = desc if isinstance(desc, str) else desc["line"]
         if m != impl:
-            corr.disagree("enc_widths", line, m, impl)
-        spec_vs_impl(corr, drv, line, s, impl)
+            corr.disagree("enc_widths", desc, m, impl)
+        spec_vs_impl(corr, drv, desc, s, impl)
         corr.nontrivial((drv, line.split()[2], impl.split()[0] + (impl.split()[1] if impl.startswith("err") else "")))
         corr.bump("enc:%s:%s" % (drv, "refused" if impl.startswith("err") else "sent"))
     corr.count("enc_widths", len(descs))
@@ -884,6 +926,20 @@ def correspond(ctx, corr):
 def replay(ctx, payload):
     v = payload.get("failure") or {}
     inp = v.get("input")
+    if isinstance(inp, dict) and "history of this command object" in inp:
+        env = Env()
+        hist = inp["history of this command object"]
+        n = hist[0]
+        c = env.stub(n[1], n[2], bool(n[3]), query=bool(n[4]), kind=n[5])
+        impl = None
+        for op in hist[1:]:
+            if op[0] == "enc":
+                impl = env.enc(inp["driver"], c, op[1])
+            else:
+                reuse_step(c, op)
+        m, sp = model_batch([inp["line"], "spec " + inp["line"]])
+        print("history:", hist, "\nlast transmission:", inp["line"], "\ncode  :", impl, "\nmodel :", m, "\nformat:", sp)
+        return (sp == "refuse" and not impl.startswith("err")) or (sp != "refuse" and sp != impl)
     if isinstance(inp, dict) and "mode" in inp:
         out, written, locked, _sp = refuse_one(Env(), inp["driver"], inp["frame bits"], inp["mode"])
         print("input :", inp, "\ncode  :", out, "| written:", written, "| lock held:", locked,
